@@ -31,7 +31,7 @@
     (v) shape/frame lemmas of the other operations. *)
 From DV Require Import Model.Base Model.NameCheck Model.Parser Model.Header Model.Readers Model.Uncompress
   Model.Mutate Model.Compress Model.Renamer Spec.PacketSpec Spec.RecordSpec Spec.PlainSpec Proofs.Hoare Proofs.HeaderBits Proofs.InsertLemmas Proofs.EdnsPlain Proofs.WalkSkip
-  Proofs.PlainWf Proofs.ViewAfter Proofs.InsertSpec Proofs.HeaderInv Proofs.CursorHist Proofs.DecompressFirst Proofs.FreshHist Proofs.DeleteInv Proofs.SetNameInv Proofs.WalkInv Proofs.RenameCursor Spec.NameSpec Proofs.RenameSpec Proofs.RenameContent.
+  Proofs.PlainWf Proofs.ViewAfter Proofs.InsertSpec Proofs.HeaderInv Proofs.CursorHist Proofs.DecompressFirst Proofs.FreshHist Proofs.DeleteInv Proofs.SetNameInv Proofs.WalkInv Proofs.RenameCursor Spec.NameSpec Proofs.RenameSpec Proofs.RenameContent Proofs.WalkFresh Proofs.RenameAny.
 
 Theorem C08_decompression_keeps_edns_summary : forall p v q v',
   bytes_ok p -> parse p = Ok v -> uncompress p = Ok q -> parse q = Ok v' ->
@@ -335,3 +335,43 @@ Theorem C08_rename_is_fresh_parse : forall p v it sl tl sfx s', bytes_ok p -> pa
   bytes_ok (pp_packet (fst s')) /\ parse (pp_packet (fst s')) = Ok (fst s').
 Proof. exact rename_fresh_is_parsed. Qed.
 Print Assumptions C08_rename_is_fresh_parse.
+
+(** histories that mix whole-packet renames with every operation of the cursor histories, from any parsed response: after each
+    successful step the object is either in pointer-free form with the view of the parse of its bytes, or exactly what the parser
+    returns for its bytes ([objst] - in both cases it matches a fresh parse of its own bytes); a rename may come at any point, the
+    other operations when the object is in pointer-free form or when they are of the kind that decompresses first *)
+Example C08_objst_means : forall v, objst v <-> dinv v \/ (bytes_ok (pp_packet v) /\ parse (pp_packet v) = Ok v).
+Proof. intros. split; intros HH; exact HH. Qed.
+
+Example C08_rename_history_vocabulary :
+  (forall tl sl sfx, run_hop4 (H4Rename tl sl sfx) = m_rename (wire_of_labels tl) (wire_of_labels sl) sfx) /\
+  (forall o, run_hop4 (H4Op o) = run_hop3 o) /\
+  (forall v tl sl sfx, hop4_ok_at v (H4Rename tl sl sfx) <->
+     Forall lab sl /\ Forall lab tl /\ sl <> [] /\ tl <> [] /\ bytes_ok (wire_of_labels tl) /\
+     length (wire_of_labels sl) <= 255 /\ length (wire_of_labels tl) <= 255) /\
+  (forall v o, hop4_ok_at v (H4Op o) <-> hop3_ok_at v o /\ (dinv v \/ decompresses_first o)) /\
+  (forall o, decompresses_first o <-> o = H3Base H2Recompute \/ (exists sec rx, o = H3Base (H2Insert sec rx)) \/
+                                      (exists off, o = H3Delete off) \/ (exists off nm, o = H3SetName off nm)) /\
+  (forall o ops s, run_hops4 (o :: ops) s =
+     match run_hop4 o s with (s1, Ok _) => run_hops4 ops s1 | (s1, Err e) => (s1, Err e) | (s1, Panic x) => (s1, Panic x) end) /\
+  (forall o ops s, ok_along4 (o :: ops) s = (hop4_ok_at (fst s) o /\ match run_hop4 o s with (s1, Ok _) => ok_along4 ops s1 | _ => True end)).
+Proof. split; [|split; [|split; [|split; [|split; [|split]]]]]; intros; try reflexivity; split; intros HH; exact HH. Qed.
+
+Theorem C08_step_with_rename : forall o v it s1, objst v -> is_response (pp_packet v) -> it_section it <> SQuestion -> hop4_ok_at v o ->
+  run_hop4 o (v, it) = (s1, Ok tt) -> objst (fst s1) /\ snd s1 = it /\ is_response (pp_packet (fst s1)).
+Proof. exact hop4_keeps_objst. Qed.
+Print Assumptions C08_step_with_rename.
+
+Theorem C08_histories_with_rename : forall p v it ops s', bytes_ok p -> parse p = Ok v -> is_response p -> it_section it <> SQuestion ->
+  ok_along4 ops (v, it) -> run_hops4 ops (v, it) = (s', Ok tt) -> objst (fst s') /\ snd s' = it /\ is_response (pp_packet (fst s')).
+Proof. exact parsed_history4. Qed.
+Print Assumptions C08_histories_with_rename.
+
+(** such a history runs: rename "a" to "bc.d" everywhere, delete the second answer, rename back *)
+Example C08_rename_history_runs :
+  match parse c08_two_answers with
+  | Ok v => let '(s, r) := run_hops4 [H4Rename [[98;99];[100]]%N [[97]]%N false; H4Op (H3Delete 38); H4Rename [[97]]%N [[98;99];[100]]%N true] (v, c08_cursor) in
+            (pp_packet (fst s), r)
+  | _ => ([], Err InvalidPacket)
+  end = ([0;7; 129;128; 0;1; 0;1; 0;0; 0;0;  1;97;0; 0;1; 0;1;  192;12; 0;1; 0;1; 0;0;0;9; 0;4; 1;2;3;4]%N, Ok tt).
+Proof. vm_compute. reflexivity. Qed.
